@@ -82,12 +82,21 @@ PROPS = {
         'explanation': 'highlight dots never leak or corrupt the alphabet; Off means untouched',
     },
     'C10': {
-        'verus': ['U10a', 'U10c'],
+        'verus': ['U10a', 'U10c', 'U19b', 'U19c'],
         'kani': [],
         'technique': 'Verus cache-coherence invariants and history-independence postconditions on the real bodies (regions) of CanonicalizeContextPatternsCache::get and of the lazy full-Unicode-table reload in replace_single_char, with the RefCell/thread-local state made an explicit parameter',
         'level_text': 'unbounded proof, for every prior cache state satisfying the coherence invariant, that the separator patterns handed to canonicalization are the ones built from the CURRENT BlockSeparators/DecimalSeparators and that the full Unicode table in use after the lazy-load step is the one the CURRENT preferences select (history independence of these two caches)',
         'level_note': 'assumed: CanonicalizeContextPatterns::new is a function of the two preference strings; FilesAndTimes::is_file_up_to_date answers true only for the recorded path; read_unicode loads the file the current preferences select; thread-local/RefCell access abstracted to &mut (R12). Not decided: rule tables, definition sets and short Unicode tables (reload decisions in read_files use file time stamps), data-nemeth-frac-level cached on the live tree, thread isolation, "switching a preference away and back restores byte-identical output" as a whole',
         'not_covered': ['SpeechRules::read_files / definitions reload (time stamps, file system)', 'MyXPath::new compile cache', 'attributes cached on the live MathML tree during brailling', 'threads'],
         'explanation': 'two caches proved history independent',
+    },
+    'C19': {
+        'verus': ['U19a', 'U19b', 'U19c'],
+        'kani': [],
+        'technique': 'Verus contracts on the real intent lexer (LexState::init/set_token/get_next, Token::as_str) over a byte/char-boundary view of &str, and Verus frame postconditions on the real recovery regions of infer_intent and build_intent with the DOM attribute state made an explicit parameter',
+        'level_text': 'unbounded proof, for every attribute string (arbitrary Unicode), that the lexer never slices out of range or inside a character (error-message arguments included), returns None only at the end of input and strictly shortens the remaining input otherwise (termination of the parser loops); and that ignoring an illegal intent, or matching a property-only intent, leaves the intent attribute on the live element on every Ok and Err path',
+        'level_note': 'assumed: the four ^-anchored token regexes find a non-empty prefix ending on a character boundary; str::trim/trim_start return sub-slices; the rule interpreter (match_pattern) does not change attributes of the source tree; DOM attribute accessors behave as a map. Not decided: build_intent/find_arg recursion (DOM + pattern matching), that a well-formed intent is honoured in speech (rule data)',
+        'not_covered': ['build_intent, build_function, find_arg (DOM recursion)', 'speech of a well-formed intent mentions concept and arguments (Rules/intent.yaml)', 'get_properties loop (termination follows from the proved progress of get_next, not itself under contract)'],
+        'explanation': 'lexer safety/progress and attribute restore frames',
     },
 }
